@@ -823,6 +823,24 @@ def run_case(ctx, mods, case):
         for kind in kinds:
             _call(ctx, 'linear_fit.linear_r2', lf.linear_r2, x, y, coef, kind)
             _call(ctx, 'linear_fit.linear_r2_points', lf.linear_r2_points, pts, coef, kind)
+    # ---- history on ONE buffer: same storage (address, length), same coefficients, different contents / strides.
+    # State keyed on the memory block instead of the values would hand back the projection of the previous contents.
+    if n >= 4 and case['x'].dtype.kind == 'f':
+        coef = coefs[0]
+        buf = np.array(case['x'], dtype=float)              # contiguous float64 work buffer owned by the caller
+        ybuf = np.array(case['y'], dtype=float)
+        for step in range(3):
+            if np.all(np.isfinite(buf)):
+                _call(ctx, 'linear_fit.linear_transform', lf.linear_transform, buf, coef)
+                _call(ctx, 'linear_fit.rmse', lf.rmse, buf, ybuf, coef)
+                _call(ctx, 'linear_fit.linear_residuals', lf.linear_residuals, buf, ybuf, coef)
+            buf *= 2.0                                       # the caller rescales its own array in place
+            buf += 1.0
+        big = np.array(np.concatenate((case['x'], case['x'][::-1] + 1.0)), dtype=float)
+        half = len(big) // 2
+        for view in (big[0:half], big[0:2 * half:2]):         # two views with the same start address and length
+            _call(ctx, 'linear_fit.linear_transform', lf.linear_transform, view, coef)
+        ctx.h('history', 'one buffer rescaled in place / two strided views of one block')
     _call(ctx, 'linear_fit.linear_fit_residuals', lf.linear_fit_residuals, x, y)
     _call(ctx, 'linear_fit.linear_fit_residuals_points', lf.linear_fit_residuals_points, pts)
     _call(ctx, 'linear_fit.linear_hv_residuals', lf.linear_hv_residuals, x, y)
